@@ -12,6 +12,7 @@ Decided by spec/Patterns.tla + spec/PatternsTrace.tla ([RT] rule transcription):
      irrefutable.  That is the verdict.  Where the transcribed algorithm predicts another answer than the
      code gave (e.g. another counterexample) it is MODEL-DRIFT, never a violation."""
 import json, os, re, time
+from concurrent.futures import ThreadPoolExecutor
 from vlib import *
 
 PID = "C07"
@@ -23,7 +24,8 @@ BOUNDS = {
 }
 MODEL_INVARIANTS = ["ExhaustiveAgrees", "CexIsSound", "IrrefutableAgrees", "LastUsefulAgrees"]
 VERDICT_INVARIANTS = ["NoPanic", "AcceptedIffExhaustive", "CounterexampleSound", "UselessIffIrrefutable"]
-CHUNK = 120000          # records per PatternsTrace run (memory of the JSON values in TLC)
+CHUNK = 25000           # records per PatternsTrace run; TLC parses the JSON single-threaded, so chunks run in parallel
+PARALLEL = 4
 MAX_VIOLATIONS_PER_UNIVERSE = 3
 EXPECTED = {
     "NoPanic": "the checker does not crash on the match",
@@ -117,8 +119,8 @@ def judge_chunk(u, rows, tag):
         tr = os.path.join(d, f"trace-{tag}.ndjson")
         write_ndjson(tr, [{"form": r["form"], "arms": r["arms"],
                            "obs": {k: r["obs"][k] for k in ("nonexh", "cex", "useless", "panic")}} for r in rows])
-        v = tlc("PatternsTrace", "PatternsTrace.cfg", env={"C07_U": u, "TRACE": tr}, workers=8, timeout=2400,
-                tag=f"c07tr{tag}", xmx="12g")
+        v = tlc("PatternsTrace", "PatternsTrace.cfg", env={"C07_U": u, "TRACE": tr}, workers=4, timeout=2400,
+                tag=f"c07tr{tag}", xmx="6g")
         drifted = [rows[int(p[1]) - 1] for p in v.printed if p[0] == "DRIFT"]
         drift += len(drifted)
         for r in drifted[:3]:
@@ -174,8 +176,10 @@ def replay_and_judge(u, uni, cases, tag, stats, feats):
                 feats[k] = feats.get(k, 0) + 1
     all_viols = []
     t = time.time()
-    for ci in range(0, len(rows), CHUNK):
-        viols, drift, states = judge_chunk(u, rows[ci:ci + CHUNK], f"{tag}-{ci // CHUNK}")
+    chunks = [(ci // CHUNK, rows[ci:ci + CHUNK]) for ci in range(0, len(rows), CHUNK)]
+    with ThreadPoolExecutor(max_workers=PARALLEL) as ex:     # a tool_failure (SystemExit) in a thread is re-raised here
+        results = list(ex.map(lambda c: judge_chunk(u, c[1], f"{tag}-{c[0]}"), chunks))
+    for viols, drift, states in results:
         stats["drift"] += drift
         stats["trace_states"] += states
         all_viols += viols
